@@ -80,6 +80,7 @@ func (r *remote) serve(rw http.ResponseWriter, req *http.Request) {
 		resp := map[string]any{
 			"active": true, "sub": f[2], "iss": issuer, "token_type": "Bearer",
 			"exp": time.Now().Add(5 * time.Minute).Unix(), "iat": time.Now().Add(-time.Minute).Unix(),
+			"profile": map[string]any{"name": "User " + f[2]},
 		}
 
 		switch f[1] {
@@ -87,20 +88,28 @@ func (r *remote) serve(rw http.ResponseWriter, req *http.Request) {
 			resp = map[string]any{"active": false}
 		case "wrongiss":
 			resp["iss"] = evilIssuer
+		case "noprofile":
+			// an active token of the right issuer, but the object the subject's attributes are taken from is missing
+			delete(resp, "profile")
 		}
 
 		json.NewEncoder(rw).Encode(resp)
 	case "identity":
 		// credential: gc.<shape>.<subject>.<nonce>
 		f := strings.Split(strings.TrimPrefix(req.Header.Get("Authorization"), "Bearer "), ".")
-		if len(f) != 4 || f[0] != "gc" || f[1] != "good" {
+		if len(f) != 4 || f[0] != "gc" || (f[1] != "good" && f[1] != "noprofile") {
 			rw.WriteHeader(http.StatusUnauthorized)
 			rw.Write([]byte(`{"error":"unauthorized"}`))
 
 			return
 		}
 
-		json.NewEncoder(rw).Encode(map[string]any{"sub": f[2], "name": "User " + f[2]})
+		doc := map[string]any{"sub": f[2], "name": "User " + f[2], "profile": map[string]any{"name": "User " + f[2]}}
+		if f[1] == "noprofile" {
+			delete(doc, "profile")
+		}
+
+		json.NewEncoder(rw).Encode(doc)
 	default:
 		rw.WriteHeader(http.StatusNotFound)
 	}
@@ -214,11 +223,14 @@ func catalogue(base string) []any {
 						"jwks_endpoint": map[string]any{"url": ep("jwt")},
 						"assertions":    map[string]any{"issuers": []any{issuer}},
 						"cache_ttl":     "0s", "allow_fallback_on_error": fb == 1,
+						// the subject's attributes are a nested object of the token / document
+						"subject": map[string]any{"id": "sub", "attributes": "profile"},
 					}
 					intro := map[string]any{
 						"introspection_endpoint": map[string]any{"url": ep("oauth2_introspection")},
 						"assertions":             map[string]any{"issuers": []any{issuer}},
 						"cache_ttl":              "0s", "allow_fallback_on_error": fb == 1,
+						"subject": map[string]any{"id": "sub", "attributes": "profile"},
 					}
 
 					if src != "authz" { // authz: the documented default source (Authorization: Bearer ...)
@@ -234,7 +246,7 @@ func catalogue(base string) []any {
 							"headers": map[string]any{"Authorization": "Bearer {{ .AuthenticationData }}"},
 						},
 						"authentication_data_source": srcConfig(src, p),
-						"subject":                    map[string]any{"id": "sub"},
+						"subject":                    map[string]any{"id": "sub", "attributes": "profile"},
 						"allow_fallback_on_error":    fb == 1,
 					})
 				}
@@ -356,10 +368,13 @@ func (b *Bed) jwt(sub, shape string) (string, error) {
 	claims := map[string]any{
 		"iss": issuer, "sub": sub, "iat": now.Add(-time.Minute).Unix(), "nbf": now.Add(-time.Minute).Unix(),
 		"exp": now.Add(5 * time.Minute).Unix(), "jti": fmt.Sprintf("%s-%d", sub, b.nonce),
+		"profile": map[string]any{"name": "User " + sub},
 	}
 	key := "ec256"
 
 	switch shape {
+	case "noprofile":
+		delete(claims, "profile")
 	case "badsig":
 		key = "ec256b" // a key the JWKS endpoint does not publish, same kid
 	case "wrongiss":
